@@ -44,14 +44,18 @@ def _gridspec(draw, big):
     if src == "mpas":
         mesh = draw(meshgen.voronoi_mesh(6, 16 if big else 10, renumber=False))
     else:
-        fam = draw(st.sampled_from(["hull", "hull", "latlon", "solid"]))
-        if fam == "hull":
+        fam = draw(st.sampled_from(["hull", "hull", "latlon", "solid", "tiny"]))
+        if fam == "tiny":
+            mesh = draw(meshgen.tiny_patch_mesh(micro=True))
+        elif fam == "hull":
             mesh = draw(meshgen.hull_mesh(4, 20 if big else 10, partial=True))
         elif fam == "latlon":
             mesh = draw(meshgen.latlon_mesh_st())
         else:
             mesh = draw(meshgen.solid_mesh_st())
         mesh.pop("centers", None)
+        if src == "topology" and draw(st.integers(0, 5)) == 0:
+            mesh = meshgen.with_orphan_nodes(draw, mesh, draw(st.sampled_from([2, 9])))
     return {"mesh": mesh, "source": src, "radius": draw(st.sampled_from([1.0, 1.0, 2.5, 6371229.0]))}
 
 
